@@ -58,11 +58,20 @@ Value& HASHExpression::value(Context & ctx) const
       break;
     case Type::INTEGER:
       if (!a1.isNull())
+      {
+        /* the number of buckets is in range [1..n] */
+        if (*a1.integer() < 1 || *a1.integer() > UINT32_MAX)
+          throw RuntimeError(EXC_RT_OUT_OF_RANGE);
         max_size = (uint32_t)*a1.integer();
+      }
       break;
     case Type::NUMERIC:
       if (!a1.isNull())
+      {
+        if (!(*a1.numeric() >= 1.0 && *a1.numeric() <= UINT32_MAX))
+          throw RuntimeError(EXC_RT_OUT_OF_RANGE);
         max_size = (uint32_t)*a1.numeric();
+      }
       break;
     default:
       throw RuntimeError(EXC_RT_FUNC_ARG_TYPE_S, KEYWORDS[oper]);
